@@ -143,4 +143,7 @@ def tps (c : Case) : Verdict :=
           if ext = s!"ok:{hex (u16 57 ++ vec16 bytes)}" then .ok tag else .diff tag "ext-framing"
       | _, _ => .diff tag "marshal=ok"
 
+/-- families served by this module (collected by the generated `DrvAll`). -/
+def families : List (String × (Case → Verdict)) := [("varint", varint), ("varint_read", varintRead), ("tps", tps)]
+
 end Drv.C24
